@@ -136,10 +136,20 @@ class Ctx:
             code = "\n".join(l.split("--")[0] for l in code.splitlines())
             if FORBIDDEN.search(code):
                 self.fail("proof", m, "forbidden construct: " + FORBIDDEN.search(code).group(0))
-            ns = re.findall(r"^namespace\s+(\S+)", code, re.M)
-            prefix = ns[0] + "." if ns else ""
-            for t in re.findall(r"^(?:private\s+)?theorem\s+([^\s:({\[]+)", code, re.M):
-                thms.append((m, prefix + t))
+            # full names follow the (possibly nested) namespaces open at each theorem; sections do not contribute
+            stack = []
+            for line in code.splitlines():
+                mm = re.match(r"^namespace\s+(\S+)", line)
+                if mm:
+                    stack.append(mm.group(1))
+                    continue
+                mm = re.match(r"^end\s+(\S+)", line)
+                if mm and stack and stack[-1] == mm.group(1):
+                    stack.pop()
+                    continue
+                mm = re.match(r"^(?:private\s+)?theorem\s+([^\s:({\[]+)", line)
+                if mm:
+                    thms.append((m, ".".join(stack + [mm.group(1)])))
         self.cov["obligations"] += len(thms)
         rc, out, dt = self.lake_build(modules)
         self.cov["stages"]["lake_build"] = round(dt, 1)
